@@ -55,6 +55,8 @@ def ffi_ty(prog, t, lt, ret=False):
         return "%sDiplomatSlice<'_, %s%s<'_>>" % (R, R, {"utf8": "DiplomatUtf8StrSlice", "ustr": "DiplomatStrSlice", "u16": "DiplomatStr16Slice"}[t[1]])
     if k == "cb":
         return "%sDiplomatCallback<%s>" % (R, ffi_ty(prog, t[2], lt))
+    if k == "tr":
+        return "DiplomatTraitStruct_" + t[1]
     if k == "write":
         return "&mut %sDiplomatWrite" % R
     if k == "ordering":
@@ -141,7 +143,9 @@ def main(tier, seed):
 
     def one(job):
         i, b = job
-        prog = tooltier.backend_program(b, seed, i, avoid_known=True, size=("large" if i % 4 == 0 else "small"), salt="c07")
+        # Kotlin also declares traits natively (a vtable Structure and one JNA Callback interface per method)
+        prog = tooltier.backend_program(b, seed, i, avoid_known=True, size=("large" if i % 4 == 0 else "small"), salt="c07",
+                                        extra_profile=(dict(traits=True, trait_prob=0.3) if (b == "kotlin" and i % 2 == 0) else None))
         if i % 3 == 2:
             native_named_types(prog, random.Random("c07n/%s/%s/%s" % (seed, i, b)), tooltier.profiles.support(b))
         d = toolrun.fresh_dir(toolrun.workdir("c07", "p%d_%s" % (i, b)))
@@ -184,6 +188,12 @@ def main(tier, seed):
                 continue
             for k, (a, g) in enumerate(zip(exp_p, gp)):
                 if not am.compatible(a, g, b):
+                    leaves = am.mismatches(a, g, b)
+                    word64 = [(("isize",), ("i", 64, True)), (("usize",), ("i", 64, False))]
+                    if leaves and all("(" in pth and (e_, o_) in word64 for pth, e_, o_ in leaves):
+                        # every disagreement is a pointer-sized integer inside a callback / trait-method signature declared as a fixed 64-bit one
+                        res.setdefault("known", []).append(("cbword", "%s: parameter %d: %s" % (where, k, ", ".join("%s ABI %s declared %s" % (p_, am.show(e_), am.show(o_)) for p_, e_, o_ in leaves))))
+                        continue
                     res["viol"].append("%s: parameter %d declared as %s, the C ABI has %s" % (where, k, am.show(g), am.show(a)))
             if not am.compatible(exp_r, gr, b):
                 res["viol"].append("%s: return declared as %s, the C ABI has %s" % (where, am.show(gr), am.show(exp_r)))
@@ -219,6 +229,9 @@ def main(tier, seed):
         stats["functions_compared"] += r["nf"]
         stats["structs_compared"] += r["ns"]
         shapes.update("%s|%s" % (b, s) for s in r["sigs"] if not spec.is_trivial_sig(s.split(":", 1)[1]))
+        for kind_, msg in r.get("known", [])[:2]:
+            chk.violation("p%d_%s_cbword" % (i, b), "program p%d backend %s: %s" % (i, b, msg), {"backend": b, "lib_rs": open(r["src"]).read()[:20000]},
+                          key={"backend": b, "signature": "isize/usize inside a callback or trait-method signature declared as Long/ULong"})
         for msg in r["viol"][:3]:
             disagreements += 1
             chk.violation("p%d_%s" % (i, b), "program p%d backend %s: %s" % (i, b, msg),
